@@ -3,7 +3,7 @@ the compiler) that pin down interactions random generation reaches only rarely. 
 of every scenario comes from the reference machine (Machine.tla, via MC_MachineFile), never from here."""
 import itertools
 
-from yprog import Builder, lit, bin_, call, vec, idx, tup
+from yprog import Builder, lit, bin_, call, vec, idx, tup, un
 
 
 def inv(o, m, *args):
@@ -462,6 +462,84 @@ def fiber_switch_context_scenarios():
         b.try_(); b.print(lit("probe body")); b.finally_(); b.print(lit("probe fin")); b.end()
         b.print(lit("done"))
         out.append(("fsw:%s:%s:%s" % (ctx, op, where), b.toks))
+    return out
+
+
+def csetf(o, m, op, e):
+    return {"k": "csetf", "o": o, "m": m, "op": op, "e": e}
+
+
+def expression_form_scenarios():
+    """the expression forms the operator profiles do not reach: compound assignment to properties (object evaluated once, read before
+    the right-hand side, every operator, missing property, non-instances, module attributes), chained assignments, assignment as a
+    value, short-circuit operators with side effects in both operands, nested interpolation, every value kind through String.from /
+    interpolation / print, tuples and ranges as values."""
+    out = []
+    OPS = ["+", "-", "*", "/", "%", "&", "|", "^", "<<", ">>"]
+    for k, op in enumerate(OPS):
+        for target in ("instance", "fresh-each-time", "module", "missing", "number", "string-field", "nil-field"):
+            b = Builder()
+            b.class_("Box", ctor="new"); b.method("make", ["v"], "ctor"); b.expr(setf(b.v("self"), "v", b.v("v"))); b.end()
+            b.method("show", []); b.ret(tup(lit("box"), get(b.v("self"), "v"))); b.end(); b.end()
+            b.var("made", lit(0))
+            b.var("shared", inv(b.v("Box"), "make", lit(12)))
+            b.fn("mk", []); b.expr(b.assign("made", bin_("+", b.v("made"), lit(1)))); b.print(tup(lit("mk called"), b.v("made"))); b.ret(b.v("shared")); b.end()
+            b.fn("rhs", []); b.print(tup(lit("rhs sees"), get(b.v("shared"), "v"))); b.ret(lit(2)); b.end()
+            mods = []
+            b.try_()
+            if target == "instance":
+                b.print(csetf(b.v("shared"), "v", op, call(b.v("rhs")))); b.print(inv(b.v("shared"), "show"))
+            elif target == "fresh-each-time":
+                b.print(csetf(call(b.v("mk")), "v", op, call(b.v("rhs")))); b.print(inv(b.v("shared"), "show")); b.print(b.v("made"))
+            elif target == "module":
+                lb = Builder(first_decl=5000); lb.var("count", lit(12)); lb.fn("get", []); lb.ret(lb.v("count")); lb.end()
+                mods = [{"path": "lib", "prog": lb.toks}]
+                b.import_("lib", "lib"); b.print(csetf(b.v("lib"), "count", op, lit(2))); b.print(inv(b.v("lib"), "get")); b.print(get(b.v("lib"), "count"))
+            elif target == "missing":
+                b.print(csetf(b.v("shared"), "nosuch", op, call(b.v("rhs"))))
+            elif target == "number":
+                b.print(csetf(lit(5), "v", op, call(b.v("rhs"))))
+            elif target == "string-field":
+                b.expr(setf(b.v("shared"), "v", lit("s"))); b.print(csetf(b.v("shared"), "v", op, lit("t"))); b.print(inv(b.v("shared"), "show"))
+            else:
+                b.expr(setf(b.v("shared"), "v", lit(None))); b.print(csetf(b.v("shared"), "v", op, lit(1))); b.print(inv(b.v("shared"), "show"))
+            b.catch("e"); b.print(tup(lit("error"), call(b.v("type"), b.v("e")), get(b.v("e"), "context"))); b.print(inv(b.v("shared"), "show")); b.end()
+            b.print(lit("done"))
+            body = {"snips": [{"prog": b.toks}], "mods": mods} if mods else b.toks
+            out.append(("expr:csetf:%s:%s" % (op, target), body))
+    # chained / nested assignments and short-circuit operators with effects on both sides
+    for variant in range(12):
+        b = Builder()
+        b.class_("Box", ctor="new"); b.end()
+        b.var("log", vec())
+        b.fn("t", ["x"]); b.expr(inv(b.v("log"), "push", tup(lit("t"), b.v("x")))); b.ret(b.v("x")); b.end()
+        b.var("a", lit(1)); b.var("c", lit(2)); b.var("o", inv(b.v("Box"), "new")); b.var("v", vec(lit(0), lit(0)))
+        if variant == 0:
+            b.print(b.assign("a", b.assign("c", lit(3)))); b.print(tup(b.v("a"), b.v("c")))
+        elif variant == 1:
+            b.print(setf(b.v("o"), "p", setf(b.v("o"), "q", lit(4)))); b.print(tup(get(b.v("o"), "p"), get(b.v("o"), "q")))
+        elif variant == 2:
+            b.print({"k": "setidx", "o": b.v("v"), "i": lit(0), "e": b.assign("a", lit(5))}); b.print(tup(b.v("v"), b.v("a")))
+        elif variant == 3:
+            b.print({"k": "and", "l": call(b.v("t"), lit(False)), "r": call(b.v("t"), lit("never"))}); b.print(b.v("log"))
+        elif variant == 4:
+            b.print({"k": "or", "l": call(b.v("t"), lit(None)), "r": call(b.v("t"), lit("second"))}); b.print(b.v("log"))
+        elif variant == 5:
+            b.print({"k": "or", "l": {"k": "and", "l": call(b.v("t"), lit(1)), "r": call(b.v("t"), lit(False))}, "r": {"k": "and", "l": call(b.v("t"), lit(0)), "r": call(b.v("t"), lit("last"))}}); b.print(b.v("log"))
+        elif variant == 6:
+            b.print({"k": "interp", "parts": [lit("a"), {"k": "interp", "parts": [lit("b"), b.v("a"), lit("c")]}, lit("d"), tup(lit(1), vec(lit(2)))]})
+        elif variant == 7:
+            # (a compound assignment's right-hand side may not itself contain an assignment: the compiler parses it in a restricted mode)
+            b.print(b.cassign("a", "+", bin_("*", b.v("c"), lit(5)))); b.print(tup(b.v("a"), b.v("c")))
+        elif variant == 8:
+            b.print({"k": "and", "l": b.assign("a", lit(0)), "r": b.assign("c", lit(9))}); b.print(tup(b.v("a"), b.v("c")))
+        elif variant == 9:
+            b.print(bin_("==", tup(lit(1), vec(lit(2), tup())), tup(lit(1), vec(lit(2), tup())))); b.print(bin_("==", {"k": "range", "l": lit(1), "r": lit(3)}, {"k": "range", "l": lit(1), "r": lit(3)}))
+        elif variant == 10:
+            b.print(un("!", {"k": "or", "l": lit(None), "r": lit(False)})); b.print(un("-", un("-", lit(3)))); b.print(un("~", un("~", lit(7))))
+        else:
+            b.expr(setf(b.v("o"), "n", lit(1))); b.print(csetf(b.v("o"), "n", "+", bin_("*", get(b.v("o"), "n"), lit(10)))); b.print(get(b.v("o"), "n"))
+        out.append(("expr:misc:%d" % variant, b.toks))
     return out
 
 
